@@ -746,5 +746,7 @@ func main() {
 		impl()
 	case "skel":
 		skelMain(os.Args[2:])
+	case "t1":
+		t1Main(os.Args[2:])
 	}
 }
